@@ -31,6 +31,7 @@ COMPONENTS = {"real": ["every unmarshall_datain", "SCSICommand.unmarshall", "SCS
               "stubs": ["sgio module", "iscsi module", "virtual /dev"],
               "simulated_peers": ["t10.targets Block/Changer/Mmc LUs producing the well-formed base responses"]}
 ASSUMPTIONS = [
+    "memory: tracemalloc peak per decode must stay below 16 MiB + 4 KiB per buffer byte (deterministic: allocation sizes are a function of the input)",
     "'work' = source-line events inside /repo/pyscsi counted by sys.settrace; budget 20000 + 400*len(buffer) is >25x the steepest honest decoder measured (READ ELEMENT STATUS, ~15 steps/byte)",
     "what a decoder returns for corrupt data is not judged (any value or any exception is fine)",
     "buffers up to 16 KiB (the largest default allocation length)",
@@ -38,6 +39,7 @@ ASSUMPTIONS = [
 REQUIRED_PROBES = ["corrupt_datain", "sense_payload", "zero_length_field", "direct_decode", "decoder_raised", "res_page"]
 
 BUDGET_BASE, BUDGET_PER_BYTE = 20000, 400
+MEM_BASE, MEM_PER_BYTE = 16 << 20, 4096       # generous: honest decoders stay below 2 MiB for 16 KiB buffers
 PREFIX = "/repo/pyscsi/"
 
 # method -> (LU kind, offsets of embedded length/count fields (offset, width) in this simulator's well-formed responses)
@@ -128,7 +130,7 @@ def generate(rng, idx, tier):
             op["fault"] = None
         op["direct_cuts"] = sorted(set(rng.choice([0, 1, 2, 3, 4, 7, 8, 9, 11, 12, 16, 17, 24, 40, 64]) for _ in range(rng.randrange(0, 4))))
         ops.append(op)
-    return {"property": ID, "config": {"lu": cfg, "transport": rng.choice(["sgio", "iscsi"])}, "ops": ops}
+    return {"property": ID, "config": {"lu": cfg, "transport": rng.choice(["sgio", "iscsi"]), "mem": rng.random() < 0.1}, "ops": ops}
 
 
 def enumerated_count(tier):
@@ -162,6 +164,25 @@ def execute(prog):
         scsi.persistentreserveout(0, service_action_reservation_key=0xABCDEF0123)
         scsi.persistentreserveout(1, reservation_key=0xABCDEF0123, pr_type=3)
     meter = steps.Meter(PREFIX)
+    import tracemalloc
+    mem_on = bool(prog["config"].get("mem"))      # allocation tracing costs ~10x: done in a tenth of the runs
+    if mem_on:
+        tracemalloc.start()
+        WORLD.probe("allocation_traced_run")
+    peak_max = [0]
+    V = []
+
+    def mem_check(label, nbytes, where_):
+        """'allocate without bound': peak of traced allocations during one decode, against a bound linear in the buffer size"""
+        if not mem_on:
+            return
+        cur, peak = tracemalloc.get_traced_memory()
+        tracemalloc.reset_peak()
+        peak_max[0] = max(peak_max[0], peak)
+        bound = MEM_BASE + MEM_PER_BYTE * nbytes
+        if peak > bound:
+            V.append(dict(oracle="C11.memory", where=where_, detail=label,
+                          expected="at most %d bytes allocated while decoding a %d-byte buffer" % (bound, nbytes), actual="peak %d bytes" % peak))
     handed = []
     orig_execute = dev.execute
 
@@ -171,7 +192,6 @@ def execute(prog):
         meter.budget = BUDGET_BASE + BUDGET_PER_BYTE * n
         return orig_execute(cmd, *a, **k)
     dev.execute = tapped
-    V = []
     summary = []
     where = prog["config"]["transport"]
     if prog.get("sense_sweep"):
@@ -201,6 +221,7 @@ def execute(prog):
         args, kw = F.real_args(op["args"]), F.real_args(op["kw"])
         fired0 = dict(WORLD.fired)
         kind, val, n = meter.run(lambda: getattr(scsi, m)(*args, **kw), BUDGET_BASE + BUDGET_PER_BYTE * 16384)
+        mem_check(m, len(handed[0].datain) if handed and handed[0].datain is not None else 16384, where)
         fmode = (fault or {}).get("mode", (fault or {}).get("kind", "none"))
         buflen = len(handed[0].datain) if handed and handed[0].datain is not None else 0
         if m == "readelementstatus" and handed:
@@ -229,6 +250,7 @@ def execute(prog):
                 WORLD.probe("direct_decode")
                 use = dk if (cut % 2 == 0 or not dk) else {}      # also with the decoder's own default arguments
                 k3, v3, n3 = meter.run(lambda: cls.unmarshall_datain(buf, **use), BUDGET_BASE + BUDGET_PER_BYTE * max(len(buf), len(final)))
+                mem_check(cls.__name__, max(len(buf), 1), "direct")
                 if k3 == "budget":
                     V.append(dict(oracle="C11.no-termination", where="direct", detail=cls.__name__,
                                   expected="%s.unmarshall_datain returns or raises within %d steps for %d bytes" % (cls.__name__, meter.budget, len(buf)),
@@ -243,7 +265,9 @@ def execute(prog):
         if k not in sigs:
             sigs.add(k)
             out_v.append(v)
-    stats = {"events": len(WORLD.events), "steps": meter.total}
+    if mem_on:
+        tracemalloc.stop()
+    stats = {"events": len(WORLD.events), "steps": meter.total, "peak_alloc_kib_sum": peak_max[0] >> 10}
     for k, v in WORLD.fired.items():
         stats["fired." + k] = v
     for k, v in WORLD.probes.items():
